@@ -555,9 +555,11 @@ def warmup_wrap(ctx: Ctx):
     warm = [c for c, w in alts if w == "warmup_baseline"]
     if len(inner) == 1 and len(warm) == 1 and isinstance(inner[0], vg.S):
         r_ = nf.cmpnf(inner[0])
-        g_ok = r_ is not None and r_[1] == ">0" and r_[0] == nf.poly(A("alpha"))
+        one = nf.Poly.const(1)
+        al_ = nf.poly(A("alpha"))
+        g_ok = r_ is not None and ((r_[1] == ">0" and r_[0] == al_) or (r_[1] == "==0" and r_[0] in (al_ - one, one - al_)) or (r_[1] == ">=0" and r_[0] == al_ - one))
         ok = g_ok
-        why = f"inner baseline's wrap_dataset iff alpha > 0 (strict): {g_ok}; otherwise the warm-up baseline's"
+        why = f"inner baseline's wrap_dataset only for alpha > 0 (strict) or alpha == 1: {g_ok}; never at alpha == 0, where the warm-up baseline applies alone"
     ctx.ob("C20.d", "WarmupBaseline.wrap_dataset:guard", ok, fw.loc, why, construct="WarmupBaseline.wrap_dataset:guard")
     # ... and while 0 < alpha < 1 the MIXTURE must reach the loss.  Two cooperating sites: REINFORCE.calculate_loss takes
     # `bl_val = extra` whenever the batch carries one and skips baseline.eval; so the training set may carry the inner baseline's
@@ -567,9 +569,20 @@ def warmup_wrap(ctx: Ctx):
     if rf is None:
         raise AnalysisError("REINFORCE.calculate_loss not found")
     ctx.fn(rf)
-    bypass = [n for n in ast.walk(rf.node) if isinstance(n, ast.IfExp) and isinstance(n.orelse, ast.Tuple) and n.orelse.elts and isinstance(n.orelse.elts[0], ast.Name)
-              and isinstance(n.test, ast.Compare) and isinstance(n.test.left, ast.Name) and n.test.left.id == n.orelse.elts[0].id
-              and any(isinstance(c, ast.Call) and isinstance(c.func, ast.Attribute) and c.func.attr == "eval" for c in ast.walk(n.body))]
+    def _is_bypass(n):
+        # `<baseline>.eval(..) if <extra> is None else (<extra>, 0)` in either orientation of the conditional expression
+        for tup, other in ((n.orelse, n.body), (n.body, n.orelse)):
+            if isinstance(tup, ast.Tuple) and tup.elts and isinstance(tup.elts[0], ast.Name) and tup.elts[0].id in {x.id for x in ast.walk(n.test) if isinstance(x, ast.Name)} \
+                    and any(isinstance(c, ast.Call) and isinstance(c.func, ast.Attribute) and c.func.attr == "eval" for c in ast.walk(other)):
+                return True
+        return False
+    bypass = [n for n in ast.walk(rf.node) if isinstance(n, ast.IfExp) and _is_bypass(n)]
+    # the statement form: `if extra is None: bl_val, bl_loss = self.baseline.eval(..) else: bl_val, bl_loss = extra, 0`
+    for n in ast.walk(rf.node):
+        if isinstance(n, ast.If) and n.orelse:
+            has_eval = [any(isinstance(c, ast.Call) and isinstance(c.func, ast.Attribute) and c.func.attr == "eval" for st in blk for c in ast.walk(st)) for blk in (n.body, n.orelse)]
+            if has_eval.count(True) == 1 and any(isinstance(c, ast.Constant) and c.value is None for c in ast.walk(n.test)):
+                bypass.append(n)
     only_alone = False
     if len(inner) == 1 and isinstance(inner[0], vg.S):
         r_ = nf.cmpnf(inner[0])
